@@ -51,9 +51,10 @@ func (e *kvElection) heartbeatLoop(ctx context.Context) {
 						e.handleHealthCheckFailure()
 						return
 					}
-					continue
-				}
-				if e.healthFailureCount.Load() > 0 {
+					// Below the threshold the instance still claims leadership,
+					// so the record is still refreshed: a claim must not outlive
+					// its lease.
+				} else if e.healthFailureCount.Load() > 0 {
 					e.healthFailureCount.Store(0)
 					log := e.getLogger()
 					log.Debug("health_check_recovered",
